@@ -23,6 +23,7 @@
 import Lattigo.Proofs.RLWE
 import Lattigo.Proofs.RLWENorm
 import Lattigo.Props.C03Ring
+import Lattigo.Props.C03Stack
 import Mathlib.Data.ZMod.Basic
 
 namespace Lattigo.Props.C03
